@@ -434,6 +434,22 @@ impl Env {
                 self.bgsweep()
             }
             b"SAVERACE" => self.saverace(),
+            b"STALETMP" => {
+                // a process that died inside a save left its temporary file behind: the next save still
+                // works, publishes the dataset and leaves no temporary file (the dump is put back afterwards)
+                let before = std::fs::read(self.file()).ok();
+                let tmp = self.dir.join("dump.tmp");
+                let _ = std::fs::write(&tmp, b"REDIS0009\xfa\x09leftover of a save that never finished");
+                let rdb = self.rdb();
+                let ok = matches!(catch_unwind(AssertUnwindSafe(|| rdb.save(&eng))), Ok(Ok(())));
+                let probe = StorageEngine::new();
+                let loaded = ok && matches!(catch_unwind(AssertUnwindSafe(|| rdb.load(&probe))), Ok(Ok(())));
+                let same = loaded && hash_toks(&dump_engine(&probe, true).0) == hash_toks(&dump_engine(&eng, true).0);
+                let gone = !tmp.exists();
+                let _ = std::fs::remove_file(&tmp);
+                match before { Some(b) => { let _ = std::fs::write(self.file(), b); } None => { let _ = std::fs::remove_file(self.file()); } }
+                vec![i(ok as i64), i((same && gone) as i64)]
+            }
             b"TEARSTRESS" => {
                 // op[2] = number of saves; the observation (torn snapshots, saves) goes into the op:
                 // it depends on the schedule and is judged, not compared
